@@ -63,10 +63,15 @@ class TaskGroup(TaskConstraint):
             self._scheduled_assertion = []
 
         for task in self.list_of_tasks:
-            self._scheduled_assertion += [
+            task_in_group = [
                 task._start >= self._start,
                 task._end <= self._end,
             ]
+            if task.optional:
+                # as for any other constraint, an optional task that is not scheduled
+                # (it is moved to an arbitrary point in the past) is not concerned
+                task_in_group = [z3.Implies(task._scheduled, z3.And(task_in_group))]
+            self._scheduled_assertion += task_in_group
 
 
 class UnorderedTaskGroup(TaskGroup):
@@ -87,18 +92,19 @@ class OrderedTaskGroup(TaskGroup):
         super().__init__(**data)
         # add a constraint between each task
         for i in range(len(self.list_of_tasks) - 1):
+            task_i, task_j = self.list_of_tasks[i], self.list_of_tasks[i + 1]
             if self.kind == "lax":
-                self._scheduled_assertion += [
-                    self.list_of_tasks[i]._end <= self.list_of_tasks[i + 1]._start
-                ]
+                order_assertion = task_i._end <= task_j._start
             elif self.kind == "strict":
-                self._scheduled_assertion += [
-                    self.list_of_tasks[i]._end < self.list_of_tasks[i + 1]._start
-                ]
+                order_assertion = task_i._end < task_j._start
             else:  # kind == 'tight':
-                self._scheduled_assertion += [
-                    self.list_of_tasks[i]._end == self.list_of_tasks[i + 1]._start
-                ]
+                order_assertion = task_i._end == task_j._start
+            if task_i.optional or task_j.optional:
+                # both tasks must be scheduled so that the order applies
+                order_assertion = z3.Implies(
+                    z3.And(task_i._scheduled, task_j._scheduled), order_assertion
+                )
+            self._scheduled_assertion += [order_assertion]
 
         self.set_z3_assertions(z3.And(self._scheduled_assertion))
 
